@@ -49,6 +49,15 @@ RULE = (
     "attribute (multi-headed: also on the wrapped module), train/eval alternating - each result == a "
     "fresh object's; (6) one larger instance: key (7,50,5,K), per-row / shared / no mask, full and "
     "broadcast query, dim 1 and -3, all flavours incl. 4 heads (3 fixed permutations instead of 50!). "
+    "On the same 687 families additionally: (7) argument identity - one tensor object as key and value "
+    "(all 16 bias-flag subsets on the flag families), and the query as a view into the key's storage where "
+    "the shapes allow, each == the call with separate copies; (8) query/key/value requiring grad (no no_grad, "
+    "backward run) and torch.inference_mode == plain; scale: the convexity / masked-content / permutation "
+    "/ negative-dim / composition clauses again with query and key multiplied by 1e3 and by 1e5 (scores "
+    "of 1e6..1e10 are ordinary finite inputs); (9)/(10) a modes pass per flavour (6 single-head + 3 "
+    "multi-headed): torch.jit.script, torch.jit.trace (traced on the first input of each (dim, rank, mask "
+    "given) class, run on the others) and modules built with float64 as default dtype on every fourth of "
+    "those families == the plain float32 module. "
     "Cases distinct by construction; non-trivial = T>=2."
 )
 ASSUMPTIONS = [
@@ -61,7 +70,10 @@ ASSUMPTIONS = [
     "is not enumerated",
     "dim == -1 is excluded (the documented range says 'and not -1')",
     "convexity is not demanded from the multi-headed flavour (its output is a projection)",
-    "TorchScript-compiled and CUDA variants not explored",
+    "TorchScript: torch.jit.script / torch.jit.trace of the modules as tests/test_attn.py builds them; "
+    "PYTORCH_JIT=1 import-time scripting and CUDA variants not explored",
+    "scaled copies: finite scale factors up to 1e5 (scores up to ~1e11, far from float32 overflow); the "
+    "broadcasting==expansion clauses are not repeated at scale",
 ]
 BUDGET_S = {"quick": 240, "thorough": 2400}
 
@@ -299,7 +311,10 @@ def _same_values(a, b):
     return a.shape == b.shape and (torch.equal(a, b) or bool(((a == b) | ((a != a) & (b != b))).all()))
 
 
-def _eval_case(ctx, cfg, seed, tpos, dim, q, k, v, mask, prep=None, extra=False):
+SCALES = (1.0e3, 1.0e5)
+
+
+def _eval_case(ctx, cfg, seed, tpos, dim, q, k, v, mask, prep=None, extra=False, relations="all"):
     """All relations of the property for one (flavour, input) pair.  q/k/v already have the
     flavour's feature sizes."""
     kind = cfg["kind"]
@@ -313,7 +328,7 @@ def _eval_case(ctx, cfg, seed, tpos, dim, q, k, v, mask, prep=None, extra=False)
         return {"cfg": cfg, "seed": seed, "tpos": tpos, "dim": dim, "q": q.tolist(), "k": k.tolist(),
                 "v": v.tolist(), "mask": None if mask is None else mask.tolist(),
                 "shapes": [list(q.shape), list(k.shape), list(v.shape),
-                           None if mask is None else list(mask.shape)], "extra": extra}
+                           None if mask is None else list(mask.shape)], "extra": extra, "relations": relations}
 
     def sig(m_, **kw):
         return dict({"api": api, "mask_given": m_ is not None, "neg_dim": dim < 0}, **kw)
@@ -435,6 +450,8 @@ def _eval_case(ctx, cfg, seed, tpos, dim, q, k, v, mask, prep=None, extra=False)
                     {"perm": ix.tolist()}):
             return
     # ---- broadcasting == expansion
+    if relations == "core":
+        q_x = all_x = None
     if q_x is not None:
         ctx.count("cases with a broadcast query")
         if not same("broadcast-query-differs-from-expanded-query",
@@ -464,6 +481,37 @@ def _eval_case(ctx, cfg, seed, tpos, dim, q, k, v, mask, prep=None, extra=False)
             if not same("depends-on-masked-content", run("non-finite-keys", mod, q, kg, v, mask), mask,
                         {"garbage": "non-finite keys"}):
                 return
+    if extra:
+        # ---- argument identity / sharing: one tensor object as key AND value (the docstring's own usage),
+        #      the query a view into the key's storage - each must equal the call with separate copies
+        shared = run("key-is-value", mod, q, k, k, mask)
+        if shared is None or not same("shared-key-value-object-differs-from-separate-copies",
+                                      run("key-value-copies", mod, q, k, k.clone(), mask), mask, ref=shared):
+            return
+        if tuple(q.shape) == tuple(k.shape[:tpos]) + tuple(k.shape[tpos + 1:]):
+            qv = k.select(tpos, 0)
+            viewed = run("query-views-key", mod, qv, k, v, mask)
+            if viewed is None or not same("query-viewing-key-differs-from-separate-copy",
+                                          run("query-copy", mod, qv.clone(), k, v, mask), mask, ref=viewed):
+                return
+        # ---- inputs requiring grad (no torch.no_grad around the call), inference_mode
+        try:
+            qg, kg_, vg_ = (t.clone().requires_grad_(True) for t in (q, k, v))
+            og = mod(qg, kg_, vg_, mask)
+            og.sum().backward()
+            with torch.inference_mode():
+                oi = mod(q, k, v, mask)
+        except Exception as e:
+            ctx.violation(sig(mask, symptom="raises", type=type(e).__name__, during="requires-grad/inference"),
+                          case(), {"error": str(e)[-300:]})
+            return
+        if not same("requires-grad-changes-result", og.detach(), mask) or not same(
+                "inference-mode-changes-result", oi, mask):
+            return
+        # ---- scale: large-norm queries and keys are ordinary finite inputs (scores of 1e6 .. 1e10); the
+        #      convexity / masked-content / permutation clauses again on scaled copies
+        for sc in SCALES:
+            _eval_case(ctx, cfg, seed, tpos, dim, q * sc, k * sc, v, mask, prep, False, "core")
     if not _same_values(base, base_kept):
         ctx.violation(sig(mask, symptom="earlier-result-changed-by-later-call"), case(),
                       {"kept": base_kept.tolist(), "now": base.tolist()})
@@ -558,6 +606,64 @@ def _run_history(ctx, spec, tier, seed):
     ctx.sample({"part": "history", "flavour": cfg, "steps": len(fams)})
 
 
+# ============================================= scripted / traced / float64-default variants
+_VARIANT_MODS = {}
+
+
+def _run_modes(ctx, spec, tier, seed):
+    """(9)/(10): torch.jit.script and torch.jit.trace of every flavour (as tests/test_attn.py builds them)
+    and modules built with float64 as the default dtype, on every fourth guard family with rank, batch
+    shape, T and mask changing: each equals the plain float32 module.  A traced module is traced on the
+    first input of its (dim, rank, mask given) class and then run on all the others."""
+    ci = spec["cfg"]
+    cfg = HIST_CFGS[ci]
+    api = API[cfg["kind"]]
+    fams = [f for f in _families("quick") if _extra_family(f) and (cfg["kind"] != "mha" or f["dim"] >= 0)]
+    fams = fams[ci % 4::4]
+    for step, fam in enumerate(fams):
+        q, k, v, m_shape = _data(fam, seed)
+        q, k, v = _slice_for(cfg, q, k, v)
+        variants = list(_mask_variants(m_shape, fam["tpos"], "quick"))
+        mask = variants[(step + 1) % len(variants)]
+        dim = fam["dim"]
+        base = _call(_module(cfg, dim, seed), q, k, v, mask)
+        for variant in ("script", "trace", "default64"):
+            ctx.case(1, 1 if fam["T"] >= 2 else 0)
+            case = {"kind": "modes", "cfg_index": ci, "seed": seed, "step": step, "variant": variant}
+            sig = {"api": api, "variant": variant, "mask_given": mask is not None}
+            key = (variant, ci, dim, seed) + ((fam["rank"], mask is None) if variant == "trace" else ())
+            prev_default = torch.get_default_dtype()
+            try:
+                args = (q, k, v) if mask is None else (q, k, v, mask)
+                if key not in _VARIANT_MODS:
+                    if variant == "default64":
+                        torch.set_default_dtype(torch.float64)
+                        _VARIANT_MODS[key] = _new_module(cfg, dim, seed)
+                    elif variant == "script":
+                        _VARIANT_MODS[key] = torch.jit.script(_new_module(cfg, dim, seed))
+                    else:
+                        _VARIANT_MODS[key] = torch.jit.trace(_new_module(cfg, dim, seed), args)
+                vm = _VARIANT_MODS[key]
+                with torch.no_grad():
+                    if variant == "default64":
+                        torch.set_default_dtype(torch.float64)
+                        out = vm(q.double(), k.double(), v.double(), mask).float()
+                    else:
+                        out = vm(*args)
+            except Exception as e:
+                ctx.violation(dict(sig, symptom="raises", type=type(e).__name__), case,
+                              {"error": str(e)[-300:], "step": step, "family": fam})
+                return
+            finally:
+                torch.set_default_dtype(prev_default)
+            if not _close_t(out, base):
+                ctx.violation(dict(sig, symptom="variant-differs-from-plain-module"), case,
+                              {"step": step, "family": fam, "variant": out.tolist(), "plain": base.tolist()})
+                return
+    ctx.count("variant steps", 3 * len(fams))
+    ctx.sample({"part": "modes", "flavour": cfg, "steps": len(fams), "variants": ["script", "trace", "default64"]})
+
+
 # ================================================================== one larger instance
 def _run_large(ctx, spec, tier, seed):
     """key (7, 50, 5, K): T=50, 35 batch rows, per-row masks; query full and broadcast; dim 1 and -3."""
@@ -597,6 +703,7 @@ def shards(tier, seed):
     # the cheap parts first, so a tight wall budget can never skip them
     return ([{"part": "params"}, {"part": "large"}] +
             [{"part": "history", "cfg": i} for i in range(len(HIST_CFGS))] +
+            [{"part": "modes", "cfg": i} for i in range(len(HIST_CFGS))] +
             [{"part": "families", "slice": i} for i in range(NSLICES)])
 
 
@@ -643,6 +750,9 @@ def run_shard(spec, tier, seed):
     if spec["part"] == "large":
         _run_large(ctx, spec, tier, seed)
         return ctx
+    if spec["part"] == "modes":
+        _run_modes(ctx, spec, tier, seed)
+        return ctx
     sl = spec["slice"]
     first = True
     for i, fam in enumerate(_families(tier)):
@@ -676,6 +786,9 @@ def replay(case):
         _CACHE.clear()
         _run_params(ctx, case["seed"])
         return ctx
+    if case.get("kind") == "modes":
+        _run_modes(ctx, {"cfg": case["cfg_index"]}, "quick", case["seed"])
+        return ctx
     if case.get("kind") == "history":
         _run_history(ctx, {"cfg": case["cfg_index"]}, "quick", case["seed"])
         return ctx
@@ -684,5 +797,5 @@ def replay(case):
     v = torch.tensor(case["v"], dtype=torch.float32).view(case["shapes"][2])
     mask = None if case["mask"] is None else torch.tensor(case["mask"], dtype=torch.bool).view(case["shapes"][3])
     _eval_case(ctx, case["cfg"], case["seed"], case["tpos"], case["dim"], q, k, v, mask, None,
-               case.get("extra", False))
+               case.get("extra", False), case.get("relations", "all"))
     return ctx
